@@ -42,6 +42,8 @@ func propC08(w *World, r *Report) {
 	RunNarrowBound(w, r, succ, br08)
 	RunControl(r, "narrowbound", "ctlWrapBound|", func(cw *World, rr *Report, fns []*ssa.Function) { RunNarrowBound(cw, rr, fns, newBoundsRun(cw)) })
 	checkTagPad(w, r)
+	RunIterFresh(w, r, enc)
+	RunIterFreshControl(r)
 	r.Floor("deadguard", 10)
 	r.Floor("twinformula", 1)
 	r.Require("twinformula|opentype/gtab.LookupList|variable lookupHeaderLen|0", "the lookup header size is computed both in LookupList.encode and in LookupList.tryReorder and the two formulas must agree")
@@ -61,7 +63,9 @@ func propC11(w *World, r *Report) {
 	for _, a := range boundsAssumptions {
 		r.Assumes(a)
 	}
-	RunLosslessFor(w, r, "C11", newBoundsRun(w))
+	br11 := newBoundsRun(w)
+	RunLosslessFor(w, r, "C11", br11)
+	runNarrowBoundIn(w, r, br11, "/glyf")
 	var gl []*ssa.Function
 	for _, f := range w.LibFuncs() {
 		if strings.HasSuffix(fnPkgPath(f), "/glyf") {
